@@ -39,7 +39,7 @@ PROBES = ["overloads_same_param_names", "optional_param_member", "class_missing_
           "text_with_backslash", "text_with_newline", "text_with_nonascii", "text_with_unprintable_latin1",
           "unprintable_followed_by_hexdigit", "templated_class_documented", "no_docs_at_all",
           "bindings_with_marker", "bindings_expected_empty", "more_bindings_than_documented_overloads",
-          "xml_member_has_extra_optional_param"]
+          "xml_member_has_extra_optional_param", "overloads_with_permuted_param_names"]
 
 
 def batches(tier):
@@ -205,9 +205,21 @@ def gen_case(tape, batch):
             if f.tmpl is None and f.args and tape.bool(0.08, "third-overload"):
                 c.members.append(G.Func("method", f.name, G.Ret(G.Ty("bool")),
                                         [G.Arg(G.Ty("string"), a.name) for a in f.args], const=f.const))
+    # overloads whose parameter NAMES are a permutation of each other (insert(key, value) / insert(value, key)):
+    # told apart only by the order of the names
+    n_perm = 0
+    for c in model.classes():
+        for f in list(c.of("method")):
+            if f.tmpl is None and len(f.args) >= 2 and all(a.default is None for a in f.args) and \
+                    tape.bool(0.25, "permuted-overload"):
+                c.members.append(G.Func("method", f.name, G.Ret(G.Ty("int")),
+                                        [G.Arg(a.ty, a.name) for a in reversed(f.args)], const=f.const))
+                n_perm += 1
     lex, _ = model.lexemes()
     text = G.render(lex, tape)
     case = {"text": text, "n_ovl": n_ovl, "probes": {}}
+    if n_perm:
+        case["probes"]["overloads_with_permuted_param_names"] = 1
     pr = case["probes"]
     mk = [0]
 
